@@ -92,6 +92,7 @@ def chainLvl : E → Nat
   | .group _ => lvMember
   | .dot x _ => chainLvl x
   | .index x _ => chainLvl x
+  | .opt _ e => chainLvl e   -- (no link is derivable on top of an optional chain, see `gwf`)
   | _ => lvCall
 
 /-- the most specific nonterminal that derives the tree (its root production) -/
@@ -106,6 +107,7 @@ def lvl : E → Nat
   | .call _ _ => lvCall
   | .dot x _ => chainLvl x
   | .index x _ => chainLvl x
+  | .opt _ _ => lvLHS   -- OptionalExpression is a LeftHandSideExpression (not a Member/CallExpression: no further links, no `new`)
 
 /-- `CoalesceExpressionHead : CoalesceExpression | BitwiseORExpression` -/
 def leftOk (op : BOp) (x : E) : Bool :=
@@ -137,6 +139,7 @@ def gwf : E → Bool
   | .call f args => lvCall ≤ lvl f && gwf f && gwfItems args
   | .dot x _ => lvCall ≤ lvl x && gwf x
   | .index x y => lvCall ≤ lvl x && gwf x && gwf y
+  | .opt a e => (e.chainVar? == some a) && gwf e   -- `MemberExpression OptionalChain`: a non-empty chain of links on the variable
 /-- items of a comma list / of an argument list: `AssignmentExpression`s -/
 def gwfItems : List E → Bool
   | [] => true
@@ -176,6 +179,7 @@ def gwfA : E → Bool
   | .call f args => lvCall ≤ lvl f && gwfA f && gwfAItems args
   | .dot x _ => lvCall ≤ lvl x && gwfA x
   | .index x y => lvCall ≤ lvl x && gwfA x && gwfA y
+  | .opt a e => (e.chainVar? == some a) && gwfA e
 def gwfAItems : List E → Bool
   | [] => true
   | a :: t => lvAssign ≤ lvl a && gwfA a && gwfAItems t
@@ -215,6 +219,13 @@ def yield : E → List Tok
      | _ => yield x) ++ [.p ".", .ident name]
   | .index x y => yield x ++ [.p "["] ++ yield y ++ [.p "]"]
   | .group x => [.p "("] ++ yield x ++ [.p ")"]
+  | .opt _ e => yieldOpt e
+/-- the terminals of a chain whose innermost link is written with `?.` -/
+def yieldOpt : E → List Tok
+  | .call f args => (if f.isLink then yieldOpt f else yield f ++ [.p "?."]) ++ [.p "("] ++ yieldSep args ++ [.p ")"]
+  | .dot x name => if x.isLink then yieldOpt x ++ [.p ".", .ident name] else yield x ++ [.p "?.", .ident name]
+  | .index x y => (if x.isLink then yieldOpt x else yield x ++ [.p "?."]) ++ [.p "["] ++ yield y ++ [.p "]"]
+  | _ => []
 def yieldSep : List E → List Tok
   | [] => []
   | [x] => yield x
